@@ -323,6 +323,61 @@ def c07_c(ctx: Ctx):
             and all((f"{nm} is None", False) in facts for (nm, _d) in builds)
         if not guarded:
             out.append(ctx.viol(R, gb, a, "the $exists pre-filter is applied although a default was given: jobs lacking the key are dropped instead of labelled with the default"))
+    # the pre-filter names the grouping keys as the caller spelled them (with their 'doc.' / 'sp.' prefix): the query engine decides the namespace from that
+    # prefix, so the keys come from the `key` parameter itself, never from the prefix-stripped copies the key function works with
+    kp = "key" if "key" in gb.params else None
+    stripped_names = set()
+    for n in body_nodes(gb):
+        tgt = None
+        val = None
+        if isinstance(n, ast.Assign) and len(n.targets) == 1 and isinstance(n.targets[0], ast.Name):
+            tgt, val = n.targets[0].id, n.value
+        elif isinstance(n, ast.Call) and isinstance(n.func, ast.Attribute) and n.func.attr in ("append", "add", "extend") and isinstance(n.func.value, ast.Name) and n.args:
+            tgt, val = n.func.value.id, n.args[0]
+        if tgt and val is not None and any(isinstance(c, ast.Call) and ((isinstance(c.func, ast.Name) and c.func.id == "_strip_prefix") or
+                                                                      (isinstance(c.func, ast.Attribute) and c.func.attr in ("split", "partition", "removeprefix", "rsplit")))
+                                           for c in ast.walk(val)):
+            stripped_names.add(tgt)
+    n_pre = 0
+    for d in body_nodes(gb):
+        srcs = []
+        if isinstance(d, ast.DictComp) and "$exists" in canon(d.value):
+            srcs = [d.generators[0].iter]
+            if not (isinstance(d.key, ast.Name) and isinstance(d.generators[0].target, ast.Name) and d.key.id == d.generators[0].target.id):
+                srcs.append(d.key)
+        elif isinstance(d, ast.Dict) and d.keys and all(k is not None and not (isinstance(k, ast.Constant) and str(k.value).startswith("$")) for k in d.keys) \
+                and all(isinstance(v, ast.Dict) and "$exists" in canon(v) for v in d.values):
+            srcs = list(d.keys)
+        if not srcs or kp is None:
+            continue
+        n_pre += 1
+        kk = f"{gb.qual}|prefilter-keys"
+        used = set()
+        for e in srcs:
+            ex = common.inline_at(ctx, gb, e, d)
+            used |= names_in(ex) | names_in(e)
+        # ... and what those locals were computed from (a few steps back)
+        for _step in range(4):
+            more = set()
+            for nm in sorted(used - set(gb.params)):
+                try:
+                    ds = common.reaching_defs(ctx, gb, nm, d)
+                except Exception:
+                    ds = []
+                for dd in ds:
+                    if isinstance(dd, ast.AST):
+                        more |= names_in(dd)
+            if more <= used:
+                break
+            used |= more
+        if used & stripped_names:
+            out.append(ctx.viol(R, gb, d, f"the $exists pre-filter `{canon(d)[:60]}` is keyed by {sorted(used & stripped_names)}, the prefix-stripped copies of the grouping keys: a 'doc.x' key is "
+                                "then required of the state point - jobs that do have doc.x are filtered out (no groups), or a KeyError is raised when a state point key of that name exists",
+                                construct=kk))
+        elif kp in used:
+            out.append(ctx.ok(R, gb, d, "the $exists pre-filter is keyed by the grouping keys as given", construct=kk))
+        else:
+            out.append(ctx.inc(R, gb, d, f"keys of the $exists pre-filter not traced to the `key` parameter ({sorted(used)})", construct=kk))
     return out
 
 
